@@ -3,6 +3,8 @@ package main
 import (
 	"fmt"
 	"go/constant"
+	"go/token"
+	"go/types"
 	"sort"
 	"strings"
 
@@ -30,6 +32,124 @@ var whatwgNonDataBody = map[string]bool{
 // findOpaqueBodyTable locates the transition function of the tag state and the name table whose
 // lookup guards the switch to the opaque-body state.
 var opaqueScope []*ssa.Function // the tag function and the helpers it calls (set by findOpaqueBodyTable)
+
+// opaqueWant: the value that marks an opaque-body element in the table (nil: the table is a set, map[string]bool)
+var opaqueWant *ssa.Const
+
+// memberTestOf: v is the boolean "name is in the set": a lookup in a package-level map[string]bool; a lookup in a
+// package-level map from names to kinds compared with a constant kind; or a call of a helper of the repository
+// that returns such a test of its (only string) parameter. Returns the table, the kind constant (nil for a set)
+// and the name looked up (in the caller's terms).
+func memberTestOf(v ssa.Value, depth int) (*ssa.Global, *ssa.Const, ssa.Value, bool) {
+	if depth > 3 {
+		return nil, nil, nil, false
+	}
+	tableOf := func(x ssa.Value) (*ssa.Global, ssa.Value, bool) {
+		lk, ok := x.(*ssa.Lookup)
+		if !ok || lk.CommaOk {
+			return nil, nil, false
+		}
+		u, ok := lk.X.(*ssa.UnOp)
+		if !ok {
+			return nil, nil, false
+		}
+		g, ok := u.X.(*ssa.Global)
+		if !ok {
+			return nil, nil, false
+		}
+		if mt, ok := g.Type().(*types.Pointer).Elem().Underlying().(*types.Map); !ok || !isStringish(mt.Key()) {
+			return nil, nil, false
+		}
+		return g, lk.Index, true
+	}
+	switch x := v.(type) {
+	case *ssa.Lookup:
+		if g, key, ok := tableOf(x); ok {
+			if b, isB := x.Type().Underlying().(*types.Basic); isB && b.Kind() == types.Bool {
+				return g, nil, key, true
+			}
+		}
+	case *ssa.BinOp:
+		if x.Op == token.EQL {
+			for _, side := range [][2]ssa.Value{{x.X, x.Y}, {x.Y, x.X}} {
+				k, isK := side[1].(*ssa.Const)
+				if !isK || k.Value == nil {
+					continue
+				}
+				if g, key, ok := tableOf(side[0]); ok {
+					return g, k, key, true
+				}
+			}
+		}
+	case *ssa.Call:
+		h := staticCallee(x.Common())
+		if h != nil && h.Blocks != nil && h.Pkg != nil && strings.HasPrefix(h.Pkg.Pkg.Path(), modulePath) && len(x.Common().Args) == 2 && len(h.Params) == 2 {
+			// set.has(name): a method of a named set type that looks its second parameter up in its first
+			if rets := Returns(h); len(rets) == 1 && len(rets[0].Results) == 1 {
+				if lk, ok := rets[0].Results[0].(*ssa.Lookup); ok && !lk.CommaOk {
+					for i := 0; i < 2; i++ {
+						if lk.X == ssa.Value(h.Params[i]) && lk.Index == ssa.Value(h.Params[1-i]) {
+							tbl := x.Common().Args[i]
+							if ct, ok := tbl.(*ssa.ChangeType); ok {
+								tbl = ct.X
+							}
+							if u, ok := tbl.(*ssa.UnOp); ok {
+								if g, ok := u.X.(*ssa.Global); ok {
+									if b, isB := lk.Type().Underlying().(*types.Basic); isB && b.Kind() == types.Bool {
+										return g, nil, x.Common().Args[1-i], true
+									}
+								}
+							}
+						}
+					}
+				}
+			}
+			return nil, nil, nil, false
+		}
+		if h == nil || h.Blocks == nil || h.Pkg == nil || !strings.HasPrefix(h.Pkg.Pkg.Path(), modulePath) || len(x.Common().Args) != 1 || len(h.Params) != 1 {
+			return nil, nil, nil, false
+		}
+		rets := Returns(h)
+		if len(rets) != 1 || len(rets[0].Results) != 1 {
+			return nil, nil, nil, false
+		}
+		g, want, key, ok := memberTestOf(rets[0].Results[0], depth+1)
+		if !ok || key != ssa.Value(h.Params[0]) {
+			return nil, nil, nil, false
+		}
+		return g, want, x.Common().Args[0], true
+	}
+	return nil, nil, nil, false
+}
+
+// nameSetOfTable: the names that the table maps to want (to true, for a set).
+func nameSetOfTable(tl *Lit, want *ssa.Const) (map[string]bool, error) {
+	if want == nil {
+		return tl.StringBoolSet()
+	}
+	if tl.Kind != "map" {
+		return nil, fmt.Errorf("not a map literal")
+	}
+	wv, ok := constant.Int64Val(want.Value)
+	if !ok {
+		return nil, fmt.Errorf("the kind compared with is not an integer constant")
+	}
+	out := map[string]bool{}
+	for i, k := range tl.Keys {
+		ks, ok := k.Str()
+		if !ok {
+			return nil, fmt.Errorf("non-constant key")
+		}
+		n, ok := tl.Vals[i].Int()
+		if !ok {
+			return nil, fmt.Errorf("non-constant value for %q", ks)
+		}
+		if n == wv {
+			out[ks] = true
+		}
+	}
+	return out, nil
+}
 
 func findOpaqueBodyTable(p *Program, r *Report, rule string) (*ssa.Function, *ssa.Global) {
 	tpk := p.Pkg("template")
@@ -82,21 +202,13 @@ func findOpaqueBodyTable(p *Program, r *Report, rule string) (*ssa.Function, *ss
 		allBlocks = append(allBlocks, g.Blocks...)
 	}
 	for _, b := range allBlocks {
-		for _, in := range b.Instrs {
-			lk, ok := in.(*ssa.Lookup)
-			if !ok {
-				continue
-			}
-			u, ok := lk.X.(*ssa.UnOp)
-			if !ok {
-				continue
-			}
-			g, ok := u.X.(*ssa.Global)
-			if !ok {
-				continue
-			}
+		{
 			iff, ok := b.Instrs[len(b.Instrs)-1].(*ssa.If)
-			if !ok || iff.Cond != ssa.Value(lk) {
+			if !ok {
+				continue
+			}
+			g, want, _, ok := memberTestOf(iff.Cond, 0)
+			if !ok {
 				continue
 			}
 			for _, d := range b.Parent().Blocks {
@@ -108,6 +220,7 @@ func findOpaqueBodyTable(p *Program, r *Report, rule string) (*ssa.Function, *ss
 						if k, ok := st.Val.(*ssa.Const); ok && k.Value != nil && k.Value.Kind() == constant.Int {
 							if v, _ := constant.Int64Val(k.Value); v == special {
 								tables = append(tables, g)
+								opaqueWant = want
 							}
 						}
 					}
@@ -134,7 +247,7 @@ func checkElementBodyKinds(p *Program, r *Report, rule string, pl *Policy) {
 		r.Undec(rule, "template."+tables[0].Name(), "", err.Error())
 		return
 	}
-	set, err := tl.StringBoolSet()
+	set, err := nameSetOfTable(tl, opaqueWant)
 	if err != nil {
 		r.Undec(rule, "template."+tables[0].Name(), p.Pos(tl.Pos), err.Error())
 		return
@@ -211,25 +324,28 @@ func checkConditionalNamesBodyKind(p *Program, r *Report, rule string) {
 		walk(v)
 		return found
 	}
-	var nameLk, namesLk []*ssa.Lookup
+	var nameLk, namesLk []ssa.Value
 	var scopeBlocks []*ssa.BasicBlock
 	for _, g := range opaqueScope {
 		scopeBlocks = append(scopeBlocks, g.Blocks...)
 	}
 	for _, b := range scopeBlocks {
 		for _, in := range b.Instrs {
-			lk, ok := in.(*ssa.Lookup)
+			v, ok := in.(ssa.Value)
 			if !ok {
 				continue
 			}
-			u, ok := lk.X.(*ssa.UnOp)
-			if !ok || u.X != ssa.Value(table) {
+			g, want, key, ok := memberTestOf(v, 0)
+			if !ok || g != table {
 				continue
 			}
-			if fromNames(lk.Index) {
-				namesLk = append(namesLk, lk)
+			if (want == nil) != (opaqueWant == nil) || (want != nil && !constant.Compare(want.Value, token.EQL, opaqueWant.Value)) {
+				continue
+			}
+			if fromNames(key) {
+				namesLk = append(namesLk, v)
 			} else {
-				nameLk = append(nameLk, lk)
+				nameLk = append(nameLk, v)
 			}
 		}
 	}
@@ -249,7 +365,7 @@ func checkConditionalNamesBodyKind(p *Program, r *Report, rule string) {
 			}
 			isN := func(v ssa.Value) bool {
 				for _, l := range namesLk {
-					if v == ssa.Value(l) {
+					if v == l {
 						return true
 					}
 				}
@@ -257,7 +373,7 @@ func checkConditionalNamesBodyKind(p *Program, r *Report, rule string) {
 			}
 			isO := func(v ssa.Value) bool {
 				for _, l := range nameLk {
-					if v == ssa.Value(l) {
+					if v == l {
 						return true
 					}
 				}
@@ -345,7 +461,7 @@ func checkOpaqueBodyNotUndone(p *Program, r *Report, rule string) {
 		r.Undec(rule, "template."+table.Name(), "", err.Error())
 		return
 	}
-	special, err := tl.StringBoolSet()
+	special, err := nameSetOfTable(tl, opaqueWant)
 	if err != nil {
 		r.Undec(rule, "template."+table.Name(), "", err.Error())
 		return
@@ -358,12 +474,12 @@ func checkOpaqueBodyNotUndone(p *Program, r *Report, rule string) {
 			specialState = v
 		}
 	}
-	disjointTable := func(g *ssa.Global) bool {
+	disjointTable := func(g *ssa.Global, want *ssa.Const) bool {
 		l, err := p.VarLit("template", cname(g))
 		if err != nil {
 			return false
 		}
-		set, err := l.StringBoolSet()
+		set, err := nameSetOfTable(l, want)
 		if err != nil {
 			return false
 		}
@@ -419,19 +535,12 @@ func checkOpaqueBodyNotUndone(p *Program, r *Report, rule string) {
 			n++
 			guarded := false
 			for _, g := range GuardsOf(st.Block()) {
-				lk, ok := g.Cond.(*ssa.Lookup)
+				gl, want, _, ok := memberTestOf(g.Cond, 0)
 				if !ok {
 					continue
 				}
-				u, ok := lk.X.(*ssa.UnOp)
-				if !ok {
-					continue
-				}
-				gl, ok := u.X.(*ssa.Global)
-				if !ok {
-					continue
-				}
-				if (g.Pol && gl != table && disjointTable(gl)) || (!g.Pol && gl == table) {
+				sameSet := gl == table && (want == nil) == (opaqueWant == nil) && (want == nil || constant.Compare(want.Value, token.EQL, opaqueWant.Value))
+				if (g.Pol && !sameSet && disjointTable(gl, want)) || (!g.Pol && sameSet) {
 					guarded = true
 				}
 			}
